@@ -25,14 +25,19 @@ import (
 // every progress point (before each info, and before returning); it polls PonderHit between
 // infos only, like the real search, and returns at once when Stop closes.
 type mock struct {
-	sid     int
-	nInfo   int
-	at      chan int      // mock -> harness: reached progress point i of the current search
-	permit  chan struct{} // harness -> mock: proceed one step
-	kill    chan struct{} // closed by the harness at clean-up
-	running atomic.Bool
-	hits    atomic.Int64
-	calls   atomic.Int64
+	sid   int
+	nInfo int
+	// noTailPoll: the last progress point ("about to return") is not followed by a poll of
+	// PonderHit - the real search polls between iterations only, so a ponderhit that arrives
+	// after its last poll (while the final info line is written, or just before it returns) is
+	// never received by the search
+	noTailPoll bool
+	at         chan int      // mock -> harness: reached progress point i of the current search
+	permit     chan struct{} // harness -> mock: proceed one step
+	kill       chan struct{} // closed by the harness at clean-up
+	running    atomic.Bool
+	hits       atomic.Int64
+	calls      atomic.Int64
 }
 
 func (m *mock) Clear()       {}
@@ -62,7 +67,7 @@ func (m *mock) Go(b *board.Board, opts ...search.Option) (chess.Score, move.Move
 		case <-m.kill:
 			return 0, 0, 0
 		}
-		if o.PonderHit != nil {
+		if o.PonderHit != nil && !(m.noTailPoll && i == m.nInfo) {
 			select {
 			case <-o.PonderHit:
 				m.hits.Add(1)
@@ -385,6 +390,9 @@ func (r *rig) finish(useEOF bool) (issues []Issue, st Stats) {
 				if strings.Contains(g, "c13.(*rig).finish") || strings.Contains(g, "internal/synctest.Run") || strings.Contains(g, "testingSynctestTest") {
 					continue
 				}
+				if f := strings.Fields(g); len(f) > 1 && leakedG[f[1]] {
+					continue // left behind by an earlier scenario's dead bubble (already reported there)
+				}
 				extra = append(extra, g)
 			}
 			if len(extra) == 0 {
@@ -408,12 +416,81 @@ type Scenario struct {
 	NInfo   int      `json:"mock_info_lines"`
 	Actions []string `json:"actions"`
 	EOF     bool     `json:"end_with_eof"`
+	// NoTailPoll: the mock search does not poll PonderHit after its last progress point
+	NoTailPoll bool `json:"mock_no_tail_poll,omitempty"`
 }
+
+// leakedG: ids of goroutines left behind by dead bubbles (see run); the census of later scenarios ignores them.
+var leakedG = map[string]bool{}
 
 // run executes the scenario in a fresh bubble and returns the findings.
 func run(t *testing.T, sc *Scenario) (issues []Issue, st Stats, ev []Event, orderSig string) {
+	func() {
+		// A driver whose goroutines wait for each other for good (nothing the GUI side can close or
+		// send frees them) cannot be cleaned up: when the scenario ends the bubble panics with
+		// "main bubble goroutine has exited but blocked goroutines remain". finish() has already
+		// reported the missing termination logically at that point, so the panic is absorbed here
+		// and the stuck goroutines are added to the report (they are leaked with their dead
+		// bubble). A bubble panic without such a finding is not absorbed.
+		defer func() {
+			e := recover()
+			if e == nil {
+				return
+			}
+			msg := fmt.Sprint(e)
+			stuck := false
+			for _, is := range issues {
+				if is.Sig == "driver-does-not-terminate-after-quit-or-eof" {
+					stuck = true
+				}
+			}
+			if !stuck || !strings.Contains(msg, "blocked goroutines remain") {
+				panic(e)
+			}
+			buf := make([]byte, 1<<18)
+			buf = buf[:runtime.Stack(buf, true)]
+			var in []string
+			for _, g := range strings.Split(string(buf), "\n\n") {
+				if !strings.Contains(strings.SplitN(g, "\n", 2)[0], "synctest bubble") {
+					continue
+				}
+				if f := strings.Fields(g); len(f) > 1 {
+					leakedG[f[1]] = true
+				}
+				if strings.Contains(g, "github.com/paulsonkoly/chess-3/") {
+					in = append(in, g)
+				}
+			}
+			issues = append(issues, Issue{"driver-goroutines-blocked-for-good", fmt.Sprintf("after quit / end of input and after the pipes were closed %d goroutine(s) inside chess-3 remain blocked on each other (%s):\n%s", len(in), msg, strings.Join(in, "\n\n"))})
+			uci.VerifPoint = nil
+		}()
+		runBubble(t, sc, &issues, &st, &ev)
+	}()
+	// signature of the observed event order (kinds only)
+	var sb strings.Builder
+	for _, e := range ev {
+		w := strings.Fields(e.Text)
+		k := "?"
+		if len(w) > 0 {
+			k = w[0]
+		}
+		if e.Send {
+			sb.WriteString(">" + k + ";")
+		} else {
+			sb.WriteString("<" + k + ";")
+		}
+	}
+	return issues, st, ev, sb.String()
+}
+
+func runBubble(t *testing.T, sc *Scenario, issuesp *[]Issue, stp *Stats, evp *[]Event) {
+	var issues []Issue
+	var st Stats
+	var ev []Event
+	defer func() { *issuesp, *stp, *evp = issues, st, ev }()
 	synctest.Test(t, func(t *testing.T) {
 		r := newRig(sc.NInfo)
+		r.m.noTailPoll = sc.NoTailPoll
 		for _, a := range sc.Actions {
 			f := strings.SplitN(a, " ", 2)
 			switch f[0] {
@@ -452,21 +529,6 @@ func run(t *testing.T, sc *Scenario) (issues []Issue, st Stats, ev []Event, orde
 		issues, st = r.finish(sc.EOF)
 		ev = r.tr.Snapshot()
 	})
-	// signature of the observed event order (kinds only)
-	var sb strings.Builder
-	for _, e := range ev {
-		w := strings.Fields(e.Text)
-		k := "?"
-		if len(w) > 0 {
-			k = w[0]
-		}
-		if e.Send {
-			sb.WriteString(">" + k + ";")
-		} else {
-			sb.WriteString("<" + k + ";")
-		}
-	}
-	return issues, st, ev, sb.String()
 }
 
 var goForms = []string{"go infinite", "go depth 5", "go nodes 1000", "go movetime 40", "go wtime 1000 btime 1000 winc 10 binc 10", "go ponder wtime 900 btime 900", "go ponder", "go ponder nodes 777", "go ponder movetime 30"}
@@ -475,6 +537,7 @@ var goForms = []string{"go infinite", "go depth 5", "go nodes 1000", "go movetim
 // the command choice restricted to what a conforming GUI may send in the current state.
 func randomScenario(rng *rand.Rand) *Scenario {
 	sc := &Scenario{Kind: "random", NInfo: rng.IntN(4), EOF: rng.IntN(3) == 0}
+	sc.NoTailPoll = rng.IntN(2) == 0
 	searching, pondering, ponderOpt, quit := false, false, false, false
 	steps := 0
 	add := func(a string) { sc.Actions = append(sc.Actions, a) }
